@@ -123,6 +123,7 @@ class Case final : public sim::CaseBase {
 
   void Saw(int observer, int op, const Outcome& o) {
     seen.push_back(Observation{observer, op, o, sim::Seq(), sim::CurrentExec()});
+    sim::RaceRead(&cell, sizeof cell);
     if (cell != id) {
       sim::Fail("STALE_PAYLOAD", "observer %d (%s) observed the result, but the producer's earlier plain write is not visible", observer, kOpNames[op]);
     }
@@ -262,6 +263,7 @@ class Case final : public sim::CaseBase {
         for (std::uint32_t y = 0; y < prod_delay; ++y) {
           sim::Yield();
         }
+        sim::RaceWrite(&cell, sizeof cell);
         cell = id;
         set_invoke = sim::Seq();
         switch (producer) {
